@@ -92,7 +92,7 @@ STAGES.update({
             ('histories-len2', 'MimeBuild', cfg(MAXP='2', MAXE='1', MAXA='1', ENCS='{"qp"}', FENCS='{"", "8bit"}',
                                                 CCS='<<"crlf", "utf8", "size900">>', SRCS='<<"seeker", "reader", "file", "iofs", "tpl">>',
                                                 OPSEQS='{<<a, b>> : a, b \\in {"WriteTo", "Write", "Reader", "UpdateReader", "File", "FileOver", "TempFile", "FailSinkMid", "SkipMw", "Sendmail"}}')),
-            ('producer-outage', 'MimeBuild', cfg(MAXP='2', MAXE='1', MAXA='1', ENCS='{"qp"}', PRODS='<<"writer", "chunk7">>', SRCS='<<"seeker", "chunk57">>',
+            ('producer-outage', 'MimeBuild', cfg(MAXP='2', MAXE='1', MAXA='1', ENCS='{"qp"}', PRODS='<<"writer", "chunk7">>', SRCS='<<"seeker", "chunk57", "iofsflaky">>', ROTS='{0, 1, 2}',
                                                  CCS='<<"crlf", "size900">>',
                                                  OPSEQS='{<<a, "BreakSrc", b, "FixSrc", c>> : a \\in {"WriteTo", "Reader"}, b \\in {"WriteTo", "Reader", "UpdateReader", "File"}, c \\in {"WriteTo", "UpdateReader", "Reader", "TempFile"}}')),
             # failing sinks at several depths of the message, then renders; a Reader that is not drained before it is updated
@@ -100,8 +100,8 @@ STAGES.update({
                                                 CCS='<<"size900", "size2000", "crlf">>', SRCS='<<"seeker", "reader", "buffer">>',
                                                 OPSEQS='{<<"WriteTo", a, "WriteTo", "Reader">> : a \\in {"FailSink25", "FailSinkMid", "FailSink75", "FailSink90", "FailSinkLate"}}'
                                                        ' \\cup {<<"WriteTo", a, "UpdateReader">> : a \\in {"ReaderHalf", "ReaderExact"}}')),
-            ('histories-len3', 'MimeBuild', cfg(MAXP='2', MAXE='1', MAXA='1', ENCS='{"b64"}', ROTS='{2}',
-                                                CCS='<<"crlf", "utf8", "size900">>', SRCS='<<"seeker", "reader", "file", "iofs", "tpl">>',
+            ('histories-len3', 'MimeBuild', cfg(MAXP='2', MAXE='1', MAXA='1', ENCS='{"b64"}', ROTS='{2, 3}',
+                                                CCS='<<"crlf", "utf8", "size900">>', SRCS='<<"seeker", "reader", "file", "iofs", "tpl", "readeroff">>',
                                                 OPSEQS='{<<a, b, c>> : a \\in {"WriteTo", "FailSink", "Reader"}, b \\in {"FailSinkLate", "UpdateReader", "Write"}, c \\in {"WriteTo", "File", "UpdateReader"}}')),
         ],
         'thorough': [
@@ -144,6 +144,9 @@ STAGES.update({
         'quick': [
             ('shapes', 'MimeBuild', cfg(MAXP='2', MAXE='1', MAXA='2', ENCS='{"qp", "b64", "8bit", "7bit"}', PENCS='{"", "b64"}', ROUNDTRIP='{TRUE}',
                                         CCS='<<"crlf", "utf8", "lf", "dots", "eq", "size300", "len76", "bin", "empty">>', ROTS='{0, 3}')),
+            # files with a transfer encoding of their own (WithFileEncoding): unencoded 8bit / 7bit files come back byte for byte
+            ('file-encodings', 'MimeBuild', cfg(MAXP='1', MAXE='1', MAXA='2', ENCS='{"qp", "b64"}', FENCS='{"", "8bit", "7bit"}', ROUNDTRIP='{TRUE}',
+                                                CCS='<<"crlf", "oneline", "dots", "len76">>', ROTS='{0, 1}')),
             ('headers-and-names', 'MimeBuild', cfg(MAXP='1', MAXE='1', MAXA='1', ENCS='{"qp"}', ROUNDTRIP='{TRUE}', CCS='<<"crlf", "utf8">>',
                                                    HDRS=hdrsets(["subject", "fromname", "toname", "cc"], ["plain", "utf8", "long", "quotes", "blanks", "dwords20"]),
                                                    FNAMES='{"", "utf8", "semi", "blanks", "dotted", "longutf8"}')),
@@ -275,6 +278,11 @@ STAGES['C02']['thorough'].append(
 STAGES['C11']['quick'].append(
     ('signed-histories', 'MimeBuild', cfg(MAXP='2', MAXE='1', MAXA='1', ENCS='{"qp"}', SMIMES=KEYS2, CCS='<<"crlf", "utf8", "size900">>',
                                            OPSEQS='{<<a, b, c>> : a \\in {"WriteTo", "Reader", "FailSinkLate", "FailSinkMid", "SkipMw"}, b \\in {"Write", "File", "FailSinkLate", "UpdateReader", "SkipMw", "Sendmail"}, c \\in {"WriteTo", "TempFile", "SkipMw"}}')))
+# files handed over as a seekable reader that is not at its start: every render carries what was ahead of the reader at that moment
+STAGES['C11']['quick'].append(
+    ('reader-at-offset', 'MimeBuild', cfg(MAXP='1', MAXE='1', MAXA='1', ENCS='{"qp"}', SRCS='<<"readeroff">>', CCS='<<"crlf", "size900">>',
+                                          SMIMES='{[key |-> "", inter |-> FALSE], [key |-> "ecdsa", inter |-> FALSE]}',
+                                          OPSEQS='{<<"WriteTo", "WriteTo">>, <<"Reader", "File", "WriteTo">>}')))
 # a message created (and sent) by mail.QuickSend: what is rendered afterwards equals what went over the wire
 STAGES['C11']['quick'].append(
     ('made-by-quicksend', 'MimeBuild', cfg(MAXP='1', MAXE='0', MAXA='0', ENCS='{"qp"}', STYLES='{"quicksend"}', CCS='<<"crlf", "utf8", "dots", "size900", "lf", "eq", "long">>', ROTS='0..6',
